@@ -113,8 +113,11 @@ def canon(o, nets=None):
     from rig.netlist import Net
     import enum
     if isinstance(o, Machine):
+        # the documented attributes, plus the names of any further instance attributes (a cache stored on an
+        # argument object is state that survives the call)
+        known = {"width", "height", "chip_resources", "chip_resource_exceptions", "dead_chips", "dead_links"}
         return ["Machine", o.width, o.height, canon(o.chip_resources), canon(o.chip_resource_exceptions),
-                canon(o.dead_chips), canon(o.dead_links)]
+                canon(o.dead_chips), canon(o.dead_links), sorted(set(vars(o)) - known)]
     if isinstance(o, RoutingTableEntry):
         return ["RTE", canon(o.route), o.key, o.mask, canon(o.sources)]
     if isinstance(o, RoutingTree):
